@@ -2,7 +2,6 @@ package addrmgrderive
 
 import (
 	"bytes"
-	"encoding/hex"
 	"fmt"
 	"math/big"
 	"os"
@@ -567,7 +566,9 @@ func (r *runner) Exec(op string) (reply string, viol string) {
 				v = append(v, fmt.Sprintf("C03 key=privKey.imported-privkey-changed: imported key %d", h.impID))
 			}
 		} else if h.chained {
-			if _, _, k := r.chainedOracle(h.scope, h.acct, h.br, h.idx); k != nil && k.IsPriv && hex.EncodeToString(k.PrivBytes()) == priv.Key.String() {
+			// the reply only says "a key of this address's public key"; that it is THE seed-derived key is the
+			// oracle's business (checkObj above compares scalar and address with the independent derivation)
+			if bytes.Equal(priv.PubKey().SerializeCompressed(), pk.PubKey().SerializeCompressed()) {
 				res = "ok key=hd"
 			}
 		}
